@@ -156,6 +156,44 @@ def c17():
     write("C17", "matrix_scoped.prog", "every scoped_connection operation x state of the operands (live / already disconnected / empty)", L)
 
 
+def c17_empty():
+    """scoped connections that manage the connection of an EMPTY or INVALIDATED slot: connected() is false and empty() is
+    true for such a connection, yet its entry is still in the list and the scoped connection is responsible for it"""
+    L = []
+
+    def setup(kind):
+        if kind == "empty":
+            return ["newG G0 V", "mkS0 S0 V", "conn C0 G0 S0"]
+        if kind == "invalid":
+            return ["newG G0 V", "newT T0", "mkS S0 V mem:1:T0", "delT T0", "conn C0 G0 S0"]
+        return ["newG G0 V", "connfn C0 G0 fn:1"]
+
+    def partner(kind):
+        if kind == "none":
+            return ["newK0 K1"]
+        if kind == "dead":
+            return ["connfn C1 G0 fn:2", "disc C1", "newK K1 C1"]
+        if kind == "live":
+            return ["connfn C1 G0 fn:2", "newK K1 C1"]
+        return ["mkS0 S1 V", "conn C1 G0 S1", "newK K1 C1"]
+
+    Q = ["size? G0", "connectedK? K0", "connectedK? K1", "connected? C0"]
+    ops = {"swap_ab": ["swapK K0 K1"], "swap_ba": ["swapK K1 K0"], "masg": ["masgK K1 K0"], "masg_rev": ["masgK K0 K1"],
+           "mv": ["mvK K2 K0"], "rel": ["relK C5 K0"], "asgKC": ["asgKC K1 C0"], "disc": ["discK K0"]}
+    for sk in ("empty", "invalid", "live"):
+        for pk in ("none", "dead", "live", "empty"):
+            for on, o in ops.items():
+                for order in (("K0", "K1"), ("K1", "K0")):
+                    L += setup(sk) + ["newK K0 C0"] + partner(pk) + Q + o + Q
+                    for k in order:
+                        L += ["delK " + k] + Q
+                    L += ["delK K2", "size? G0", "emit G0 1", "size? G0",
+                          "delC C0", "delC C1", "delC C5", "delS S0", "delS S1", "delT T0", "delG G0"]
+    write("C17", "matrix_scoped_empty_slots.prog",
+          "scoped connection of an empty / invalidated / live slot x partner (none / dead / live / empty-slot) x operation x "
+          "destruction order", L)
+
+
 def c04():
     L = []
     ways = ["disc", "othercopy", "delT", "clear", "delG", "scoped", "indisc", "inclear", "indelT"]
@@ -248,4 +286,4 @@ def c01():
 
 
 if __name__ == "__main__":
-    c01(); c04(); c08(); c12(); c13(); c14(); c17(); c18()
+    c01(); c04(); c08(); c12(); c13(); c14(); c17(); c17_empty(); c18()
